@@ -22,6 +22,22 @@ pub fn sub<P: driver::Prop + 'static>(p: P, quick: usize, thorough: usize) -> Su
     }
 }
 
+/// sub-checks that run a case on the calling thread only (usable inside a libFuzzer target)
+pub fn fuzzable(name: &str) -> bool {
+    name.contains("-layout")
+        || name.starts_with("c18-")
+        || name.starts_with("c19-")
+        || name.starts_with("c20-")
+        || name == "c08-model"
+        || name == "c09-model"
+        || name == "c17-model"
+        || name == "c13-setup-dispose"
+}
+
+pub const FUZZ_PROPS: [&str; 13] = [
+    "C01", "C02", "C03", "C04", "C07", "C08", "C09", "C10", "C13", "C17", "C18", "C19", "C20",
+];
+
 pub const ALL: [&str; 20] = [
     "C01", "C02", "C03", "C04", "C05", "C06", "C07", "C08", "C09", "C10", "C11", "C12", "C13",
     "C14", "C15", "C16", "C17", "C18", "C19", "C20",
